@@ -1127,6 +1127,8 @@ fn read_bcf_stream<R: Read>(mut r: bcf::io::Reader<R>, tx: &mut Tx, vpos: &dyn F
 
 #[derive(Clone, Copy, PartialEq, Eq, Debug)]
 pub enum TextKind {
+    /// GFF3 read through the owned views (`line_bufs()`), which have their own conversions
+    GffBufs,
     Fasta,
     /// FASTA text read by `fasta::io::Indexer` (the events are the `.fai` records it builds)
     FastaIndexer,
@@ -1197,7 +1199,7 @@ impl TextDriver {
                 }
                 w.get_mut().flush()
             }
-            TextKind::Gff => {
+            TextKind::Gff | TextKind::GffBufs => {
                 let mut r = gff::io::Reader::new(text);
                 let mut w = gff::io::Writer::new(sink);
                 for line in r.line_bufs() {
@@ -1261,6 +1263,7 @@ impl Driver for TextDriver {
             TextKind::FastaIndexer => "fasta-indexer",
             TextKind::Fastq => "fastq",
             TextKind::Gff => "gff",
+            TextKind::GffBufs => "gff-bufs",
             TextKind::Gtf => "gtf",
             TextKind::Bed3 => "bed3",
             TextKind::Bed4 => "bed4",
@@ -1278,7 +1281,7 @@ impl Driver for TextDriver {
         match self.kind {
             TextKind::Fasta | TextKind::FastaIndexer => fasta_doc(),
             TextKind::Fastq => fastq_doc(),
-            TextKind::Gff => gff_doc(),
+            TextKind::Gff | TextKind::GffBufs => gff_doc(),
             TextKind::Gtf => gtf_doc(),
             TextKind::Bed3 => bed_doc(3),
             TextKind::Bed4 => bed_doc(4),
@@ -1384,22 +1387,27 @@ impl Driver for TextDriver {
                         }
                     }
                 }
-                // second pass: the owned views (`line_bufs()`), which have their own comment / directive
-                // / record conversions
-                let (src2, _) = open_bufread(data, d);
-                let mut r2 = gff::io::Reader::new(src2);
-                for lb in r2.line_bufs() {
+            }
+            TextKind::GffBufs => {
+                let mut r = gff::io::Reader::new(src);
+                let mut ended = false;
+                for lb in r.line_bufs() {
                     match lb {
                         Ok(lb) => {
                             if !tx.push(Ev::Record(format!("LB:{lb:?}"))) {
+                                ended = true;
                                 break;
                             }
                         }
                         Err(e) => {
-                            tx.push(err_ev("line-buf", &e));
+                            tx.push(err_ev("record", &e));
+                            ended = true;
                             break;
                         }
                     }
+                }
+                if !ended {
+                    tx.push(Ev::Eof);
                 }
             }
             TextKind::Gtf => {
@@ -1483,7 +1491,7 @@ impl Driver for TextDriver {
         match self.kind {
             TextKind::Fasta => (true, false),
             TextKind::Fastq => (true, true),
-            TextKind::Gff => (true, false),
+            TextKind::Gff | TextKind::GffBufs => (true, false),
             _ => (false, false),
         }
     }
@@ -1867,6 +1875,7 @@ pub fn all() -> Vec<Box<dyn Driver>> {
         Box::new(TextDriver { kind: TextKind::FastaIndexer }),
         Box::new(TextDriver { kind: TextKind::Fastq }),
         Box::new(TextDriver { kind: TextKind::Gff }),
+        Box::new(TextDriver { kind: TextKind::GffBufs }),
         Box::new(TextDriver { kind: TextKind::Gtf }),
         Box::new(TextDriver { kind: TextKind::Bed3 }),
         Box::new(TextDriver { kind: TextKind::Bed4 }),
